@@ -102,6 +102,20 @@ let process mode oc line =
          | RScanErr k -> "read err " ^ kind_name k
          | RPragmaErr -> "read err pragma"
          | RBad -> "read bad")
+    | "import" ->
+      let f = format_of toks.(1) in
+      let n = int_of_string toks.(2) in
+      let files = Stdlib.List.init n (fun k -> (ub toks.(3 + 2 * k), ub toks.(4 + 2 * k))) in
+      (match import_dir f [] files with
+       | None -> Printf.fprintf oc "%s imp err\n" id
+       | Some out ->
+         let out = Stdlib.List.map (fun (a, b) -> (string_of_bytes a, string_of_bytes b)) out in
+         (* a later file with the same name overwrites an earlier one; the directory lists by name *)
+         let tbl = Hashtbl.create 8 in
+         Stdlib.List.iter (fun (a, b) -> Hashtbl.replace tbl a b) out;
+         let names = Stdlib.List.sort_uniq compare (Stdlib.List.map fst out) in
+         Printf.fprintf oc "%s imp ok %d%s\n" id (Stdlib.List.length names)
+           (String.concat "" (Stdlib.List.map (fun a -> " " ^ hex a ^ "=" ^ hex (Hashtbl.find tbl a)) names)))
     | "files" ->
       let f = format_of toks.(1) in
       let n = int_of_string toks.(2) in
